@@ -13,6 +13,8 @@
 //	                                module, to a package-level variable of the module and to a local variable
 //	                                captured by a function literal in vsched.RN / vsched.WN (happens-before
 //	                                race check only, no scheduling point)
+//	watchelems <pkgdir>...          (with watchall) additionally record slice/array element accesses x[i], the
+//	                                writes of append and copy into backing arrays, and map reads/writes
 //	yieldcalls <pkgdir> <Iface> <writeMethod,...>   a scheduling point before every method call on a value whose
 //	                                static type is interface <Iface> declared in <pkgdir> (in every instrumented
 //	                                package): listed methods are writes of the called object, the others reads
@@ -58,6 +60,7 @@ type spec struct {
 	lruPkgs    map[string]bool
 	watch      map[string]map[string]bool // pkgdir -> "Type.field"
 	watchAll   map[string]bool
+	watchElems map[string]bool
 	yieldIface map[string]map[string]bool // "<import path>.<Iface>" -> write methods
 	replace    map[string]map[string]string // pkgdir -> func -> new func
 	setconst   map[string]map[string]string // pkgdir -> const -> value
@@ -74,7 +77,7 @@ func readSpec(path string) *spec {
 	if err != nil {
 		die("%v", err)
 	}
-	s := &spec{instrument: map[string]bool{}, timePkgs: map[string]bool{}, lruPkgs: map[string]bool{}, watch: map[string]map[string]bool{}, watchAll: map[string]bool{}, yieldIface: map[string]map[string]bool{}, replace: map[string]map[string]string{}, setconst: map[string]map[string]string{}}
+	s := &spec{instrument: map[string]bool{}, timePkgs: map[string]bool{}, lruPkgs: map[string]bool{}, watch: map[string]map[string]bool{}, watchAll: map[string]bool{}, watchElems: map[string]bool{}, yieldIface: map[string]map[string]bool{}, replace: map[string]map[string]string{}, setconst: map[string]map[string]string{}}
 	for _, ln := range strings.Split(string(b), "\n") {
 		if i := strings.IndexByte(ln, '#'); i >= 0 {
 			ln = ln[:i]
@@ -137,6 +140,12 @@ func readSpec(path string) *spec {
 			}
 			s.yieldIface[modPath+"/"+f[1]+"."+f[2]] = w
 			s.instrument[f[1]] = true
+		case "watchelems":
+			for _, p := range f[1:] {
+				s.watchElems[p] = true
+				s.watchAll[p] = true
+				s.instrument[p] = true
+			}
 		case "watchall":
 			for _, p := range f[1:] {
 				s.watchAll[p] = true
@@ -243,7 +252,7 @@ func main() {
 			if len(lp.CgoFiles) > 0 {
 				die("package %s uses cgo; not supported", p)
 			}
-			rw := &rewriter{fset: fset, sp: sp, pkgdir: p, doTime: sp.timePkgs[p], doLRU: sp.lruPkgs[p], watch: sp.watch[p], watchAll: sp.watchAll[p]}
+			rw := &rewriter{fset: fset, sp: sp, pkgdir: p, doTime: sp.timePkgs[p], doLRU: sp.lruPkgs[p], watch: sp.watch[p], watchAll: sp.watchAll[p], watchElems: sp.watchElems[p]}
 			rw.load(lp, imp)
 			for i, f := range rw.files {
 				changed := rw.rewriteFile(f)
@@ -294,6 +303,7 @@ type rewriter struct {
 	watch     map[string]bool
 	watchHit  map[string]bool
 	watchAll  bool
+	watchElems bool
 	replaced  map[string]bool
 	captured  map[types.Object]bool // local variables referenced from a function literal that does not declare them
 	autoN     int
@@ -302,11 +312,13 @@ type rewriter struct {
 	needs     map[string]bool // shim imports needed by the current file
 	tmpN      int
 	generated map[ast.Expr]bool // expressions produced by rewriteWatched (their operand is a non-channel field)
+	genType   map[ast.Expr]types.Type // static type of expressions generated by the blanket instrumentation
 }
 
 func (rw *rewriter) load(lp *listPkg, imp types.Importer) {
 	rw.watchHit = map[string]bool{}
 	rw.replaced = map[string]bool{}
+	rw.genType = map[ast.Expr]types.Type{}
 	for _, gf := range lp.GoFiles {
 		f, err := parser.ParseFile(rw.fset, filepath.Join(lp.Dir, gf), nil, parser.ParseComments)
 		if err != nil {
@@ -423,6 +435,9 @@ func (rw *rewriter) rewriteFile(f *ast.File) bool {
 			if len(rw.sp.yieldIface) > 0 && rw.yieldCall(n) {
 				changed = true
 			}
+			if rw.watchElems && rw.autoBuiltin(n) {
+				changed = true
+			}
 			if rep := rw.sp.replace[rw.pkgdir]; rep != nil {
 				if id, ok := n.Fun.(*ast.Ident); ok && rep[id.Name] != "" {
 					if fn, ok := rw.info.Uses[id].(*types.Func); ok && fn.Pkg() != nil && fn.Parent() == fn.Pkg().Scope() {
@@ -489,6 +504,10 @@ func (rw *rewriter) rewriteFile(f *ast.File) bool {
 			}
 		case *ast.Ident:
 			if rw.watchAll && rw.autoIdent(c, n) {
+				changed = true
+			}
+		case *ast.IndexExpr:
+			if rw.watchElems && rw.autoIndex(c, n) {
 				changed = true
 			}
 		}
@@ -909,6 +928,9 @@ func (rw *rewriter) wrapAuto(c *astutil.Cursor, n ast.Expr, kind int, name strin
 		rw.generated = map[ast.Expr]bool{}
 	}
 	rw.generated[wrapped] = true
+	if t := rw.typeOf(n); t != nil {
+		rw.genType[wrapped] = t
+	}
 	c.Replace(wrapped)
 	return true
 }
@@ -1024,4 +1046,140 @@ func (rw *rewriter) yieldCall(n *ast.CallExpr) bool {
 	rw.needs["vsched"] = true
 	se.X = call("vsched", "Pt", se.X, strLit(named.Obj().Name()+"."+se.Sel.Name), ast.NewIdent(w))
 	return true
+}
+
+// ---- element-level instrumentation (watchelems) ----
+
+func (rw *rewriter) elemName(n ast.Node) string {
+	p := n.Pos()
+	switch x := n.(type) { // operands may already be generated nodes without a position
+	case *ast.IndexExpr:
+		p = x.Lbrack
+	case *ast.CallExpr:
+		p = x.Lparen
+	}
+	pos := rw.fset.Position(p)
+	return "element (" + filepath.Base(pos.Filename) + ")"
+}
+
+// typeOf returns the recorded type of e, looking through the wrappers this instrumenter generated.
+func (rw *rewriter) typeOf(e ast.Expr) types.Type {
+	if tv, ok := rw.info.Types[e]; ok && tv.Type != nil {
+		return tv.Type
+	}
+	if t, ok := rw.genType[e]; ok {
+		return t
+	}
+	return nil
+}
+
+// autoIndex wraps x[i] for slices, arrays (addressable) and pointers to arrays as an element access, and for
+// maps records a read/write of the map itself.
+func (rw *rewriter) autoIndex(c *astutil.Cursor, n *ast.IndexExpr) bool {
+	xt := rw.typeOf(n.X)
+	if xt == nil {
+		return false
+	}
+	k := rw.accessKind(c.Parent(), n)
+	switch u := xt.Underlying().(type) {
+	case *types.Map:
+		// v := m[k] / v, ok := m[k] / m[k] = v / m[k]++ : wrap the map operand
+		fn := "MapR"
+		if k == 2 {
+			fn = "MapW"
+		}
+		if _, isTypeParam := xt.(*types.TypeParam); isTypeParam {
+			return false
+		}
+		rw.needs["vsched"] = true
+		w := call("vsched", fn, n.X, strLit("map "+rw.elemName(n)))
+		rw.genType[w] = xt
+		n.X = w
+		return true
+	case *types.Slice:
+		_ = u
+	case *types.Array:
+		if tv, ok := rw.info.Types[n.X]; !ok || !tv.Addressable() {
+			return false
+		}
+	case *types.Pointer:
+		if _, isArr := u.Elem().Underlying().(*types.Array); !isArr {
+			return false
+		}
+	default:
+		return false // strings, type parameters
+	}
+	if k == 0 {
+		return false
+	}
+	et := rw.typeOf(n)
+	if et != nil && skipType(et) {
+		return false
+	}
+	return rw.wrapAuto(c, n, k, rw.elemName(n))
+}
+
+// autoBuiltin: append(a, xs...) writes a's backing array; copy(dst, src) writes dst and reads src.
+func (rw *rewriter) autoBuiltin(n *ast.CallExpr) bool {
+	id, ok := n.Fun.(*ast.Ident)
+	if !ok {
+		return false
+	}
+	if _, isBuiltin := rw.info.Uses[id].(*types.Builtin); !isBuiltin {
+		return false
+	}
+	isSlice := func(e ast.Expr) bool {
+		t := rw.typeOf(e)
+		if t == nil {
+			return false
+		}
+		_, ok := t.Underlying().(*types.Slice)
+		if _, tp := t.(*types.TypeParam); tp {
+			return false
+		}
+		return ok
+	}
+	wrap := func(fn string, e ast.Expr) ast.Expr {
+		rw.needs["vsched"] = true
+		w := call("vsched", fn, e, strLit(rw.elemName(n)))
+		rw.genType[w] = rw.typeOf(e)
+		return w
+	}
+	switch id.Name {
+	case "append":
+		if len(n.Args) == 0 || !isSlice(n.Args[0]) {
+			return false
+		}
+		n.Args[0] = wrap("AppendW", n.Args[0])
+		if n.Ellipsis.IsValid() && len(n.Args) == 2 && isSlice(n.Args[1]) {
+			n.Args[1] = wrap("SliceR", n.Args[1])
+		}
+		return true
+	case "delete":
+		if len(n.Args) != 2 {
+			return false
+		}
+		if t := rw.typeOf(n.Args[0]); t != nil {
+			if _, isMap := t.Underlying().(*types.Map); isMap {
+				if _, tp := t.(*types.TypeParam); !tp {
+					rw.needs["vsched"] = true
+					w := call("vsched", "MapW", n.Args[0], strLit("map "+rw.elemName(n)))
+					rw.genType[w] = t
+					n.Args[0] = w
+					return true
+				}
+			}
+		}
+		return false
+	case "copy":
+		if len(n.Args) != 2 || !isSlice(n.Args[0]) {
+			return false
+		}
+		n.Args[0] = wrap("SliceW", n.Args[0])
+		if isSlice(n.Args[1]) {
+			n.Args[1] = wrap("SliceR", n.Args[1])
+		}
+		return true
+	}
+	return false
 }
